@@ -22,6 +22,30 @@ pub struct T12(pub [u32; 3]);
 #[derive(Clone, Copy, Pod, Zeroable)]
 pub struct T24(pub [u64; 3]);
 
+/// user-defined length prefixes whose width is not a power of two (24 and 48 bits, little-endian, align 1): the blanket
+/// `PodLength` impl admits them, and the layout rules (padding up to the element alignment) are the same for every width
+macro_rules! pod_len {
+    ($name:ident, $n:expr) => {
+        #[repr(transparent)]
+        #[derive(Clone, Copy, Debug, Default, PartialEq, Pod, Zeroable)]
+        pub struct $name(pub [u8; $n]);
+        impl TryFrom<usize> for $name {
+            type Error = core::num::TryFromIntError;
+            fn try_from(v: usize) -> Result<Self, Self::Error> {
+                if (v as u128) >> (8 * $n) != 0 { return Err(u8::try_from(256u16).unwrap_err()); }
+                let mut out = [0u8; $n];
+                out.copy_from_slice(&(v as u64).to_le_bytes()[..$n]);
+                Ok(Self(out))
+            }
+        }
+        impl From<$name> for usize {
+            fn from(v: $name) -> usize { let mut b = [0u8; 8]; b[..$n].copy_from_slice(&v.0); u64::from_le_bytes(b) as usize }
+        }
+    };
+}
+pod_len!(PodU24, 3);
+pod_len!(PodU48, 6);
+
 #[repr(C, align(16))]
 #[derive(Clone)]
 struct Arena<const N: usize>([u8; N]);
@@ -30,35 +54,35 @@ struct Arena<const N: usize>([u8; N]);
 pub fn elem_params(t: &str) -> (usize, usize) {
     match t { "u8" => (1, 1), "u16" => (2, 2), "b3" => (3, 1), "u32" => (4, 4), "u64" => (8, 8), "a16" => (16, 16), "m35" => (35, 1), "zst" => (0, 1), "t12" => (12, 4), "t24" => (24, 8), _ => panic!("elem type {t}") }
 }
-pub fn prefix_width(l: &str) -> usize { match l { "p8" => 1, "p16" | "r16" => 2, "p32" => 4, "p64" => 8, "p128" => 16, _ => panic!("prefix {l}") } }
+pub fn prefix_width(l: &str) -> usize { match l { "p8" => 1, "p16" | "r16" => 2, "p24" => 3, "p32" => 4, "p48" => 6, "p64" => 8, "p128" => 16, _ => panic!("prefix {l}") } }
 /// `r16` is the primitive `u16`: it satisfies the `PodLength` bounds but is 2-aligned, which `header_padding` rejects
 pub fn prefix_supported(l: &str) -> bool { l != "r16" }
 pub const ELEMS: &[&str] = &["u8", "u16", "b3", "u32", "u64", "a16", "m35", "zst", "t12", "t24"];
-pub const PREFIXES: &[&str] = &["p16", "p32", "p64", "p128", "p8", "r16"];
+pub const PREFIXES: &[&str] = &["p16", "p32", "p64", "p128", "p8", "r16", "p24", "p48"];
 
 macro_rules! dispatch {
     ($t:expr, $l:expr, $f:ident, $($arg:expr),*) => {
         match ($t, $l) {
             ("u8", "p16") => $f::<u8, PodU16>($($arg),*), ("u8", "p32") => $f::<u8, PodU32>($($arg),*), ("u8", "p64") => $f::<u8, PodU64>($($arg),*), ("u8", "p128") => $f::<u8, PodU128>($($arg),*),
-            ("u8", "p8") => $f::<u8, u8>($($arg),*), ("u8", "r16") => $f::<u8, u16>($($arg),*),
+            ("u8", "p8") => $f::<u8, u8>($($arg),*), ("u8", "r16") => $f::<u8, u16>($($arg),*), ("u8", "p24") => $f::<u8, PodU24>($($arg),*), ("u8", "p48") => $f::<u8, PodU48>($($arg),*),
             ("u16", "p16") => $f::<u16, PodU16>($($arg),*), ("u16", "p32") => $f::<u16, PodU32>($($arg),*), ("u16", "p64") => $f::<u16, PodU64>($($arg),*), ("u16", "p128") => $f::<u16, PodU128>($($arg),*),
-            ("u16", "p8") => $f::<u16, u8>($($arg),*), ("u16", "r16") => $f::<u16, u16>($($arg),*),
+            ("u16", "p8") => $f::<u16, u8>($($arg),*), ("u16", "r16") => $f::<u16, u16>($($arg),*), ("u16", "p24") => $f::<u16, PodU24>($($arg),*), ("u16", "p48") => $f::<u16, PodU48>($($arg),*),
             ("b3", "p16") => $f::<[u8; 3], PodU16>($($arg),*), ("b3", "p32") => $f::<[u8; 3], PodU32>($($arg),*), ("b3", "p64") => $f::<[u8; 3], PodU64>($($arg),*), ("b3", "p128") => $f::<[u8; 3], PodU128>($($arg),*),
-            ("b3", "p8") => $f::<[u8; 3], u8>($($arg),*), ("b3", "r16") => $f::<[u8; 3], u16>($($arg),*),
+            ("b3", "p8") => $f::<[u8; 3], u8>($($arg),*), ("b3", "r16") => $f::<[u8; 3], u16>($($arg),*), ("b3", "p24") => $f::<[u8; 3], PodU24>($($arg),*), ("b3", "p48") => $f::<[u8; 3], PodU48>($($arg),*),
             ("u32", "p16") => $f::<u32, PodU16>($($arg),*), ("u32", "p32") => $f::<u32, PodU32>($($arg),*), ("u32", "p64") => $f::<u32, PodU64>($($arg),*), ("u32", "p128") => $f::<u32, PodU128>($($arg),*),
-            ("u32", "p8") => $f::<u32, u8>($($arg),*), ("u32", "r16") => $f::<u32, u16>($($arg),*),
+            ("u32", "p8") => $f::<u32, u8>($($arg),*), ("u32", "r16") => $f::<u32, u16>($($arg),*), ("u32", "p24") => $f::<u32, PodU24>($($arg),*), ("u32", "p48") => $f::<u32, PodU48>($($arg),*),
             ("u64", "p16") => $f::<u64, PodU16>($($arg),*), ("u64", "p32") => $f::<u64, PodU32>($($arg),*), ("u64", "p64") => $f::<u64, PodU64>($($arg),*), ("u64", "p128") => $f::<u64, PodU128>($($arg),*),
-            ("u64", "p8") => $f::<u64, u8>($($arg),*), ("u64", "r16") => $f::<u64, u16>($($arg),*),
+            ("u64", "p8") => $f::<u64, u8>($($arg),*), ("u64", "r16") => $f::<u64, u16>($($arg),*), ("u64", "p24") => $f::<u64, PodU24>($($arg),*), ("u64", "p48") => $f::<u64, PodU48>($($arg),*),
             ("a16", "p16") => $f::<A16, PodU16>($($arg),*), ("a16", "p32") => $f::<A16, PodU32>($($arg),*), ("a16", "p64") => $f::<A16, PodU64>($($arg),*), ("a16", "p128") => $f::<A16, PodU128>($($arg),*),
-            ("a16", "p8") => $f::<A16, u8>($($arg),*), ("a16", "r16") => $f::<A16, u16>($($arg),*),
+            ("a16", "p8") => $f::<A16, u8>($($arg),*), ("a16", "r16") => $f::<A16, u16>($($arg),*), ("a16", "p24") => $f::<A16, PodU24>($($arg),*), ("a16", "p48") => $f::<A16, PodU48>($($arg),*),
             ("m35", "p16") => $f::<ExtraAccountMeta, PodU16>($($arg),*), ("m35", "p32") => $f::<ExtraAccountMeta, PodU32>($($arg),*), ("m35", "p64") => $f::<ExtraAccountMeta, PodU64>($($arg),*), ("m35", "p128") => $f::<ExtraAccountMeta, PodU128>($($arg),*),
-            ("m35", "p8") => $f::<ExtraAccountMeta, u8>($($arg),*), ("m35", "r16") => $f::<ExtraAccountMeta, u16>($($arg),*),
+            ("m35", "p8") => $f::<ExtraAccountMeta, u8>($($arg),*), ("m35", "r16") => $f::<ExtraAccountMeta, u16>($($arg),*), ("m35", "p24") => $f::<ExtraAccountMeta, PodU24>($($arg),*), ("m35", "p48") => $f::<ExtraAccountMeta, PodU48>($($arg),*),
             ("zst", "p16") => $f::<Zst, PodU16>($($arg),*), ("zst", "p32") => $f::<Zst, PodU32>($($arg),*), ("zst", "p64") => $f::<Zst, PodU64>($($arg),*), ("zst", "p128") => $f::<Zst, PodU128>($($arg),*),
-            ("zst", "p8") => $f::<Zst, u8>($($arg),*), ("zst", "r16") => $f::<Zst, u16>($($arg),*),
+            ("zst", "p8") => $f::<Zst, u8>($($arg),*), ("zst", "r16") => $f::<Zst, u16>($($arg),*), ("zst", "p24") => $f::<Zst, PodU24>($($arg),*), ("zst", "p48") => $f::<Zst, PodU48>($($arg),*),
             ("t12", "p16") => $f::<T12, PodU16>($($arg),*), ("t12", "p32") => $f::<T12, PodU32>($($arg),*), ("t12", "p64") => $f::<T12, PodU64>($($arg),*), ("t12", "p128") => $f::<T12, PodU128>($($arg),*),
-            ("t12", "p8") => $f::<T12, u8>($($arg),*), ("t12", "r16") => $f::<T12, u16>($($arg),*),
+            ("t12", "p8") => $f::<T12, u8>($($arg),*), ("t12", "r16") => $f::<T12, u16>($($arg),*), ("t12", "p24") => $f::<T12, PodU24>($($arg),*), ("t12", "p48") => $f::<T12, PodU48>($($arg),*),
             ("t24", "p16") => $f::<T24, PodU16>($($arg),*), ("t24", "p32") => $f::<T24, PodU32>($($arg),*), ("t24", "p64") => $f::<T24, PodU64>($($arg),*), ("t24", "p128") => $f::<T24, PodU128>($($arg),*),
-            ("t24", "p8") => $f::<T24, u8>($($arg),*), ("t24", "r16") => $f::<T24, u16>($($arg),*),
+            ("t24", "p8") => $f::<T24, u8>($($arg),*), ("t24", "r16") => $f::<T24, u16>($($arg),*), ("t24", "p24") => $f::<T24, PodU24>($($arg),*), ("t24", "p48") => $f::<T24, PodU48>($($arg),*),
             _ => panic!("type combination"),
         }
     };
@@ -426,6 +450,21 @@ pub fn generate_c10(tier: &str, rng: &mut Rng) -> Vec<String> {
             v.push(format!("lv {t} {l} {} {}", off % 16, hex(&vec![0xffu8; hdr + 4 * sz.max(1)])));
         }
         for n in 0..=hdr + 1 { v.push(format!("lv {t} {l} 0 {}", hex(&rng.bytes(n)))); }
+        if al > 1 {
+            // buffers that start at an address NOT aligned for the element type but would hold a whole number of elements if
+            // the data were taken to start at the next aligned ADDRESS (instead of after the documented, static padding):
+            // the documented layout puts the data at a misaligned address here, so every opening must reject them
+            for off in 1..al.min(9) {
+                let pad_dyn = (al - ((off + wl) % al)) % al;
+                if (off + hdr) % al == 0 { continue; }
+                for k in [1usize, 3] {
+                    let mut b = vec![0u8; wl + pad_dyn + k * sz];
+                    b[0] = rng.below(k as u64 + 1) as u8;
+                    for x in b[wl..].iter_mut() { *x = rng.byte(); }
+                    v.push(format!("lv {t} {l} {off} {}", hex(&b)));
+                }
+            }
+        }
         let reps = if thorough { 2_000 } else { 12 };
         for _ in 0..reps {
             let off = rng.below(16) as usize;
@@ -496,6 +535,22 @@ pub fn generate_c09(tier: &str, rng: &mut Rng) -> Vec<String> {
         v.push("E".into());
         case += 1;
     }}}
+    // longer lists (25..48 elements) with many ties under the comparator, sorted through the view: the result is what a stable
+    // sort of the vector gives (sorting algorithms switch strategy with the length: short lists say nothing about long ones)
+    for (t, l) in [("u16", "p32"), ("m35", "p16"), ("b3", "p64"), ("u64", "p32"), ("u8", "p16")] {
+        let (sz, al) = elem_params(t);
+        let wl = prefix_width(l);
+        let pad = if al <= 1 || wl % al == 0 { 0 } else { al - wl % al };
+        let cap = 48usize;
+        let off = (al.max(1) - ((wl + pad) % al.max(1))) % al.max(1);
+        v.push(format!("B {case} lvh {t} {l} {off} {}", hex(&vec![0u8; wl + pad + cap * sz])));
+        v.push("O init".into());
+        let n = rng.range(25, 48);
+        for _ in 0..n { let mut e = gen_elem(rng, sz); if sz > 0 { e[0] = rng.below(3) as u8; } v.push(format!("O push {}", hex(&e))); }
+        for m in ["first", "reopen", "rev", "first", "reopen", "lex", "reopen"] { v.push(if m == "reopen" { "O reopen".to_string() } else { format!("O sort {m}") }); }
+        v.push("E".into());
+        case += 1;
+    }
     // wide prefixes whose upper bytes are not zero while the lower bytes alone would be a legal count: every byte of the
     // prefix is part of the count (a 128-bit prefix is not read as 64 bits, a 64-bit one not as 32)
     for (t, l, sz) in [("u8", "p32", 1usize), ("u8", "p64", 1), ("u8", "p128", 1), ("m35", "p64", 35), ("m35", "p128", 35), ("b3", "p128", 3)] {
